@@ -59,8 +59,7 @@ class Ctx:
         d = self._specdir(sub)
         out = os.path.join(d, "tlc_%s.out" % cfg.replace(".cfg", ""))
         cmd = ["java", "-XX:+UseParallelGC"]
-        if heap:
-            cmd.append("-Xmx" + heap)
+        cmd.append("-Xmx" + (heap or "8g"))
         cmd += ["-Xss64m", "-cp", "/opt/veriftools/tla/tla2tools.jar:/opt/veriftools/tla/CommunityModules-deps.jar",
                 "tlc2.TLC", "-workers", str(workers), "-metadir", os.path.join(d, "meta_" + cfg), "-noGenerateSpecTE",
                 "-config", cfg] + list(extra) + [module + ".tla"]
